@@ -119,8 +119,8 @@ class FirstOrderFiniteDifference(Operator):
         elif (self.bc_type == 'periodic'):
             locs = [-1, 0]
             Dmat = spdiags(diags, locs, N+1, N).tocsr()
-            Dmat[-1, 0] = 1
-            Dmat[0, -1] = -1
+            Dmat[-1, 0] += 1
+            Dmat[0, -1] += -1
         elif (self.bc_type == 'neumann'):
             locs = [0, 1]
             Dmat = spdiags(diags, locs, N-1, N)
@@ -183,10 +183,12 @@ class SecondOrderFiniteDifference(FirstOrderFiniteDifference):
         elif (self.bc_type == 'periodic'):
             locs = [-2, -1, 0]
             Dmat = spdiags(diags, locs, N+2, N).tocsr()
-            Dmat[0, -2] = -1
-            Dmat[0:2, -1] = [2, -1]
-            Dmat[-2, 0] = -1
-            Dmat[-1, 0:2] = [2, -1]
+            Dmat[0, -2] += -1
+            Dmat[0, -1] += 2
+            Dmat[1, -1] += -1
+            Dmat[-2, 0] += -1
+            Dmat[-1, 0] += 2
+            Dmat[-1, 1] += -1
         elif (self.bc_type == 'neumann'):
             locs = [0, 1, 2]
             Dmat = spdiags(diags, locs, N-2, N).tocsr()
